@@ -1,0 +1,8 @@
+//go:build !verif
+
+package mod
+
+import "time"
+
+// verifNow is a seam for the deterministic simulator (build tag "verif").
+func verifNow(string) time.Time { return time.Now() }
